@@ -390,6 +390,7 @@ class Interp:
         self.inlined = []
         self.opaque_calls = []
         self.assumed_asserts = []
+        self.mut_vars = set()
 
     # ------------------------------------------------------------ calls
     def call_def(self, def_path, args, e=None, gargs=None):
@@ -777,6 +778,8 @@ class Interp:
                 fr.bind(pat['var'], Ref(place, 'Mut' in mode.split(',')[0]))
             else:
                 fr.bind(pat['var'], place.get())
+                if mode.replace(' ', '').endswith(',Mut)'):
+                    self.mut_vars.add(pat['var'])
             if pat.get('sub'):
                 return self.match_pat(pat['sub'], place, fr)
             return True
@@ -934,6 +937,9 @@ class Interp:
                 raise
             if not isinstance(c, B):
                 raise Unsupported("branch condition is not decided: %r" % (c,), e['cond'])
+            bl = getattr(self.model, 'branch_log', None)
+            if bl is not None:
+                bl.add((e.get('sp'), c.b))
             if c.b:
                 return self.eval(e['then'], fr)
             if e.get('else') is not None:
